@@ -92,3 +92,49 @@ verif_proof! { [C30 C22]
         leak(dec);
     }
 }
+
+// C18: the read-only open path decodes the header through a reader that has no Write
+// capability at all (HeaderCodec::read_without_repair), and gets the same header the
+// repairing reader would return for a file with legacy lock bytes.
+struct RoImage { bytes: [u8; HEADER_SIZE], pos: u64 }
+impl std::io::Read for RoImage {
+    fn read(&mut self, buf: &mut [u8]) -> std::io::Result<usize> {
+        let p = self.pos as usize;
+        if p >= HEADER_SIZE { return Ok(0); }
+        let n = core::cmp::min(buf.len(), HEADER_SIZE - p);
+        unsafe { core::ptr::copy_nonoverlapping(self.bytes.as_ptr().add(p), buf.as_mut_ptr(), n); }
+        self.pos += n as u64;
+        Ok(n)
+    }
+}
+impl std::io::Seek for RoImage {
+    fn seek(&mut self, pos: SeekFrom) -> std::io::Result<u64> { if let SeekFrom::Start(p) = pos { self.pos = p; } Ok(self.pos) }
+}
+verif_proof! { [C18]
+    #[kani::unwind(34)]
+    fn c18_header_read_without_repair() {
+        let h = Header { magic: MAGIC, version: EXPECTED_VERSION, footer_offset: kani::any(), wal_offset: WAL_OFFSET, wal_size: 65536,
+                         wal_checkpoint_pos: kani::any(), wal_sequence: kani::any(), toc_checksum: [7u8; 32] };
+        let enc = HeaderCodec::encode(&h);
+        let mut bytes = match enc { Ok(b) => b, Err(e) => { leak(e); return; } };
+        let legacy: [u8; 4] = kani::any();
+        let at: usize = kani::any();
+        kani::assume(at >= LEGACY_LOCK_REGION_START && at + 4 <= LEGACY_LOCK_REGION_END);
+        bytes[at] = legacy[0]; bytes[at + 1] = legacy[1]; bytes[at + 2] = legacy[2]; bytes[at + 3] = legacy[3];
+        let mut img = RoImage { bytes, pos: 0 };
+        let r = HeaderCodec::read_without_repair(&mut img);
+        match &r {
+            Ok(g) => {
+                assert!(same_header(&h, g), "[C18] read-only header read returned a different header");
+                let mut i = 0;
+                while i < 4 {
+                    assert!(img.bytes[at + i] == legacy[i], "[C18] read-only header read changed the image");
+                    i += 1;
+                }
+            }
+            Err(_) => assert!(false, "[C18] read-only header read rejected a valid header with legacy lock bytes"),
+        }
+        kani::cover!(legacy[0] != 0, "legacy bytes present");
+        leak(r);
+    }
+}
